@@ -203,7 +203,7 @@ class TU:
     def _load(self):
         sha = self._preprocessed_sha()
         os.makedirs(CACHE, exist_ok=True)
-        cpath = os.path.join(CACHE, "ast-%s.pkl.gz" % sha[:32])
+        cpath = os.path.join(CACHE, "ast2-%s.pkl.gz" % sha[:32])   # ast2: nested enums collected
         if os.path.exists(cpath):
             try:
                 with gzip.open(cpath, "rb") as f:
@@ -236,6 +236,8 @@ class TU:
                     records[n["name"]] = fields
                     rkinds[n["name"]] = n.get("tagUsed", "struct")
                 records["#" + n["id"]] = fields
+                # enums declared inside a record (struct reb_simulation { enum {...} integrator; }) have file scope in C
+                _nested_enums(n, enums, enum_sets)
             elif k == "EnumDecl":
                 es = {}
                 nxt = 0
@@ -346,6 +348,30 @@ class TU:
                 return off
             off += s
         raise KeyError(field)
+
+
+def _nested_enums(rec, enums, enum_sets):
+    """EnumDecls nested (at any depth) inside a RecordDecl: their constants are ordinary identifiers in C."""
+    for c in rec.get("inner", ()):
+        if not isinstance(c, dict):
+            continue
+        if c.get("kind") == "EnumDecl":
+            es = {}
+            nxt = 0
+            for e in c.get("inner", ()):
+                if e.get("kind") == "EnumConstantDecl":
+                    v = None
+                    for cc in e.get("inner", ()):
+                        v = _const_int(cc, enums)
+                    if v is None:
+                        v = nxt
+                    es[e["name"]] = v
+                    enums.setdefault(e["name"], v)
+                    nxt = v + 1
+            if c.get("name"):
+                enum_sets.setdefault(c["name"], es)
+        elif c.get("kind") == "RecordDecl":
+            _nested_enums(c, enums, enum_sets)
 
 
 def _const_int(node, enums):
